@@ -13,6 +13,7 @@ CheckLine(i) ==
               ELSE (IF o.yamlErr \/ o.jsonErr THEN {"decode-error"} ELSE {})
                    \cup (IF ~o.yamlErr /\ ~o.jsonErr /\ ~o.sameDecode THEN {"yaml-and-json-decode-differently"} ELSE {})
                    \cup (IF ~o.yamlErr /\ ~o.jsonErr /\ ~o.asIntended THEN {"decoded-options-lost-a-value"} ELSE {})
+                   \cup (IF ~o.yamlErr /\ ~o.jsonErr /\ ~o.pairOK THEN {"options-leak-between-node-groups-of-one-file"} ELSE {})
                    \cup (IF o.accepted # o.acceptedJson THEN {"validation-differs-between-yaml-and-json"} ELSE {})
                    \cup (IF o.accepted /\ ~Safe(c) THEN {"accepted-unsafe:" \o x : x \in Unsafe(c)} ELSE {})
       facts == IF isKey THEN {"C16:documented-key"}
